@@ -47,3 +47,19 @@ Proof.
   vm_compute. split; [right; right; left; reflexivity | split; reflexivity].
 Qed.
 Print Assumptions C13_client_matches_visible_refuted_by_paging.
+
+(* (3) REPAIRED by /repo commit 7044a86 ("fix: include deleted roles when computing the periods a user was granted a
+   channel"; found by this check, signature stale-doc/deleted-role-periods-missing).  Before the repair
+   CollectionChannelGrantedPeriods ignored a deleted role that is still listed among the user's roles: channel A (2),
+   held only through role r1 (granted at 3, deleted at 6), had no access period at all, so a document of A changed after
+   the client's position (4) was not recognised as having been in the channel and no revocation row was built. *)
+Example deleted_role_periods_missing_before_repair :
+  let u := mkUser 3 [(1, 1)] [] [(1, 3)] [] in
+  let roles := [mkRole 1 true [] [(1, [(1, 6)]); (2, [(2, 6)])]] in
+  let doc_history := [(2, 4, 0)] in
+  granted_periods_unrepaired u roles 2 = []
+  /\ was_in_channel doc_history (granted_periods_unrepaired u roles 2) 2 4 = false
+  /\ granted_periods u roles 2 = [(3, 6)]
+  /\ was_in_channel doc_history (granted_periods u roles 2) 2 4 = true
+  /\ revoked_channels u roles 4 0 0 = [(2, 6)].
+Proof. vm_compute. repeat split; reflexivity. Qed.
